@@ -342,7 +342,7 @@ def consistentSlots (C : Codecs) (env : Env) : List Slot → Bool
     (match env.get f with
       | some (.t v) =>
         (match C.enc typ v with
-          | .ok bs => (match win with | some n => bs.length == n | none => true) &&
+          | .ok (bs, _) => (match win with | some n => bs.length == n | none => true) &&
               (match C.dec typ bs with | .ok (_, k) => k == bs.length | _ => false)
           | _ => false)
       | _ => false) && consistentSlots C env r
